@@ -86,4 +86,409 @@ theorem leaf_wcwidth (c : Nat) :
   · rfl
   · exact leaf_mk_wcwidth c
 
+
+/-! ### counting
+
+`Scans mem fuel len pos cs t`: with no limit, the loop of `tickit_utf8_ncountmore(str, len, pos, _)` meets the
+characters `cs` and then the end of the input (`t = eof`) or an error (`t = err`); `fuel` is enough for that.
+`scans_sound` says what these characters are; `scan_terminates_*` that enough fuel exists for every
+terminated input. -/
+
+def Scans (mem : Mem) (fuel : Nat) (len : Option Nat) (pos : Pos) (cs : List Ch) (t : Tail) : Prop :=
+  scan mem fuel pos.bytes (lenSub len pos.bytes) = some (cs, t)
+
+/-- The graphemes of the scanned characters and how many of them a call with limit `L` counts. -/
+abbrev graphemes (cs : List Ch) : List (List Ch) := clusters cs
+abbrev taken (L : Option Limit) (cs : List Ch) (t : Tail) (pos : Pos) : Nat := specTaken L (clusters cs) t pos
+
+/-- What the scanned characters are: character `c` after the prefix `a` is what the decoder finds at that
+    offset — `c.n` bytes, code point `c.cp`, width `c.w = wcwidth c.cp ≥ 0`; and after all of them the loop
+    guard fails (`eof`) or one of the `return -1` is taken (`err`). -/
+theorem scans_sound (mem : Mem) (fuel : Nat) (len : Option Nat) (pos : Pos) (cs : List Ch) (t : Tail)
+    (hs : Scans mem fuel len pos cs t) :
+    (∀ a c b, cs = a ++ c :: b →
+      ∃ hi, stepAt mem (pos.bytes + bytesOf a) (lenDec (lenSub len pos.bytes) (bytesOf a)) = .ch c.n c.cp c.w hi ∧
+        c.w = wcwidth c.cp ∧ 0 ≤ c.w) ∧
+    (t = .eof → ∃ hi, stepAt mem (pos.bytes + bytesOf cs) (lenDec (lenSub len pos.bytes) (bytesOf cs)) = .stop hi) ∧
+    (t = .err → ∃ hi, stepAt mem (pos.bytes + bytesOf cs) (lenDec (lenSub len pos.bytes) (bytesOf cs)) = .err hi) := by
+  refine ⟨?_, scan_end mem fuel _ _ cs t hs⟩
+  intro a c b hsplit
+  unfold Scans at hs
+  rw [hsplit] at hs
+  obtain ⟨hi, hst⟩ := scan_head mem fuel _ _ c b t (scan_append mem a fuel _ _ (c :: b) t hs)
+  obtain ⟨h1, h2⟩ := stepAt_ch_nonneg hst
+  exact ⟨hi, hst, h2, h1⟩
+
+/-- The graphemes: every group is one character of width ≥ 0 followed by zero-width characters, every
+    group but the first starts with a spacing character, and together they are exactly the characters. -/
+theorem graphemes_wf (mem : Mem) (fuel : Nat) (len : Option Nat) (pos : Pos) (cs : List Ch) (t : Tail)
+    (hs : Scans mem fuel len pos cs t) :
+    (∀ g ∈ graphemes cs, IsCluster g) ∧ (∀ g ∈ (graphemes cs).tail, Spacing g) ∧ (graphemes cs).flatten = cs :=
+  ⟨(clusters_wf cs (scan_nonneg mem _ _ _ _ _ hs)).1, (clusters_wf cs (scan_nonneg mem _ _ _ _ _ hs)).2,
+   clusters_flatten cs⟩
+
+/-- **Model = executable specification.**  `tickit_utf8_ncountmore` returns what `specRun` computes
+    grapheme by grapheme (this is the function the runtime oracle evaluates). -/
+theorem count_spec (mem : Mem) (fuel : Nat) (len : Option Nat) (pos : Pos) (L : Option Limit)
+    (cs : List Ch) (t : Tail) (hs : Scans mem fuel len pos cs t) :
+    ∃ hi, ncountmore mem fuel len pos L =
+      .ret ((specRun L (graphemes cs) t pos).ret pos.bytes) (specRun L (graphemes cs) t pos).pos hi :=
+  ncountmore_eq_spec mem fuel len pos L cs t hs
+
+/-- **Grapheme-atomic.**  The returned position is the position after a whole number `j` of graphemes;
+    it is the initial position (`j = 0`), the end of the scanned input, or the start of a grapheme that
+    begins with a spacing character. -/
+theorem count_grapheme_atomic (mem : Mem) (fuel : Nat) (len : Option Nat) (pos : Pos) (L : Option Limit)
+    (cs : List Ch) (t : Tail) (hs : Scans mem fuel len pos cs t) (r : Int) (p : Pos) (hi : Nat)
+    (h : ncountmore mem fuel len pos L = .ret r p hi) :
+    taken L cs t pos ≤ (graphemes cs).length ∧
+    p = sumPos pos ((graphemes cs).take (taken L cs t pos)).flatten ∧
+    (taken L cs t pos = 0 ∨ taken L cs t pos = (graphemes cs).length ∨
+      ∃ g rest, (graphemes cs).drop (taken L cs t pos) = g :: rest ∧ Spacing g) := by
+  obtain ⟨_, hp⟩ := ret_inj hs h
+  obtain ⟨h1, h2⟩ := specRun_pos L t (clusters cs) pos
+  refine ⟨h2, by rw [hp, h1], ?_⟩
+  obtain ⟨_, w2⟩ := clusters_wf cs (scan_nonneg mem _ _ _ _ _ hs)
+  show specTaken L (clusters cs) t pos = 0 ∨ specTaken L (clusters cs) t pos = (clusters cs).length ∨
+    ∃ g rest, (clusters cs).drop (specTaken L (clusters cs) t pos) = g :: rest ∧ Spacing g
+  generalize clusters cs = gs at *
+  generalize specTaken L gs t pos = j at *
+  by_cases hj0 : j = 0
+  · exact Or.inl hj0
+  · by_cases hjl : j = gs.length
+    · exact Or.inr (Or.inl hjl)
+    · right; right
+      cases hd : gs.drop j with
+      | nil => simp at hd; omega
+      | cons g rest =>
+        refine ⟨g, rest, rfl, w2 g ?_⟩
+        have hg : g ∈ gs.drop j := by rw [hd]; simp
+        rw [show j = 1 + (j - 1) by omega, ← List.drop_drop] at hg
+        have := List.mem_of_mem_drop hg
+        rwa [List.drop_one] at this
+
+
+example : Scans (memOfBytes [0x65, 0xcc, 0x81, 0x62]) 10 none Pos.zero [⟨1, 0x65, 1⟩, ⟨2, 0x301, 0⟩, ⟨1, 0x62, 1⟩] .eof ∧
+    graphemes [⟨1, 0x65, 1⟩, ⟨2, 0x301, 0⟩, ⟨1, 0x62, 1⟩] = [[⟨1, 0x65, 1⟩, ⟨2, 0x301, 0⟩], [⟨1, 0x62, 1⟩]] ∧
+    -- "e´b" with a limit of 2 code points… and of 1 code point: the combining accent is never split off
+    count (memOfBytes [0x65, 0xcc, 0x81, 0x62]) 10 (some ⟨none, 2, -1, -1⟩) = .ret 3 ⟨3, 2, 1, 1⟩ 4 ∧
+    count (memOfBytes [0x65, 0xcc, 0x81, 0x62]) 10 (some ⟨none, 1, -1, -1⟩) = .ret 0 ⟨0, 0, 0, 0⟩ 3 := by
+  unfold Scans; decide +kernel
+
+/-- **Consistent counters.**  The returned counters are the initial ones plus sums over the counted
+    characters (a prefix of the scanned ones): bytes = Σ encoded lengths, codepoints = their number,
+    graphemes = number of spacing ones, columns = Σ `wcwidth`. -/
+theorem count_consistent (mem : Mem) (fuel : Nat) (len : Option Nat) (pos : Pos) (L : Option Limit)
+    (cs : List Ch) (t : Tail) (hs : Scans mem fuel len pos cs t) (r : Int) (p : Pos) (hi : Nat)
+    (h : ncountmore mem fuel len pos L = .ret r p hi) :
+    ∃ counted rest, cs = counted ++ rest ∧
+      counted = ((graphemes cs).take (taken L cs t pos)).flatten ∧
+      p.bytes = pos.bytes + (counted.map (·.n)).sum ∧
+      p.codepoints = pos.codepoints + counted.length ∧
+      p.graphemes = pos.graphemes + (counted.filter (fun c => decide (wcwidth c.cp > 0))).length ∧
+      p.columns = pos.columns + (counted.map (fun c => wcwidth c.cp)).sum ∧
+      (r ≠ -1 → r = (counted.map (·.n)).sum) := by
+  obtain ⟨hr, hp⟩ := ret_inj hs h
+  obtain ⟨h1, _⟩ := specRun_pos L t (clusters cs) pos
+  have hw : ∀ c ∈ cs, c.w = wcwidth c.cp := by
+    intro c hc
+    obtain ⟨a, b, hab⟩ := List.append_of_mem hc
+    obtain ⟨_, _, hcw, _⟩ := (scans_sound mem fuel len pos cs t hs).1 a c b hab
+    exact hcw
+  refine ⟨((clusters cs).take (specTaken L (clusters cs) t pos)).flatten,
+    ((clusters cs).drop (specTaken L (clusters cs) t pos)).flatten, ?_, rfl, ?_⟩
+  · rw [← List.flatten_append, List.take_append_drop, clusters_flatten]
+  · generalize hc : ((clusters cs).take (specTaken L (clusters cs) t pos)).flatten = counted at *
+    have hsub : ∀ c ∈ counted, c ∈ cs := by
+      intro c hcm
+      rw [← hc] at hcm
+      have : c ∈ (clusters cs).flatten := by
+        rw [← List.take_append_drop (specTaken L (clusters cs) t pos) (clusters cs), List.flatten_append]
+        exact List.mem_append_left _ hcm
+      rwa [clusters_flatten] at this
+    have hbytes : bytesOf counted = (counted.map (·.n)).sum := bytesOf_eq_sum counted
+    have hmapw : counted.map (·.w) = counted.map (fun c => wcwidth c.cp) :=
+      List.map_congr_left (fun c hcm => hw c (hsub c hcm))
+    have hfilt : counted.filter (fun c => decide (c.w > 0)) = counted.filter (fun c => decide (wcwidth c.cp > 0)) :=
+      List.filter_congr (fun c hcm => by rw [hw c (hsub c hcm)])
+    rw [hp, h1]
+    refine ⟨by rw [sumPos_bytes, hbytes], sumPos_codepoints _ _, by rw [sumPos_graphemes, hfilt],
+      by rw [sumPos_columns, hmapw], ?_⟩
+    intro hne
+    rw [hr] at hne ⊢
+    unfold Res.ret at hne ⊢
+    by_cases he : (specRun L (clusters cs) t pos).err = true
+    · simp [he] at hne
+    · have he' : (specRun L (clusters cs) t pos).err = false := by simpa using he
+      simp only [he', Bool.false_eq_true, if_false, h1, sumPos_bytes, hbytes]; omega
+
+/-- **Limits respected.**  Unless nothing was counted, the returned counters are within every limit —
+    and so are the counters after each counted grapheme on the way. -/
+theorem count_limits (mem : Mem) (fuel : Nat) (len : Option Nat) (pos : Pos) (L : Option Limit)
+    (cs : List Ch) (t : Tail) (hs : Scans mem fuel len pos cs t) (r : Int) (p : Pos) (hi : Nat)
+    (h : ncountmore mem fuel len pos L = .ret r p hi) :
+    (p = pos ∨ Within L p) ∧
+    ∀ i, 0 < i → i ≤ taken L cs t pos → Within L (sumPos pos ((graphemes cs).take i).flatten) := by
+  obtain ⟨_, hp⟩ := ret_inj hs h
+  rw [hp]
+  exact ⟨specRun_within L t (clusters cs) pos, specRun_prefix_within L t (clusters cs) pos⟩
+
+/-- **Maximal.**  When the call does not return the error value: if a grapheme remains after the returned
+    position, counting it too would put some counter above its limit; if none remains, the input ended at
+    the terminator / length. -/
+theorem count_maximal (mem : Mem) (fuel : Nat) (len : Option Nat) (pos : Pos) (L : Option Limit)
+    (cs : List Ch) (t : Tail) (hs : Scans mem fuel len pos cs t) (r : Int) (p : Pos) (hi : Nat)
+    (h : ncountmore mem fuel len pos L = .ret r p hi) (hne : r ≠ -1) :
+    (∀ g rest, (graphemes cs).drop (taken L cs t pos) = g :: rest → ¬ Within L (sumPos p g)) ∧
+    ((graphemes cs).drop (taken L cs t pos) = [] → t = .eof) := by
+  obtain ⟨hr, hp⟩ := ret_inj hs h
+  have herr : (specRun L (clusters cs) t pos).err = false := by
+    cases he : (specRun L (clusters cs) t pos).err with
+    | false => rfl
+    | true => exact absurd (by rw [hr]; exact (ret_neg_iff L _ t pos).2 he) hne
+  refine ⟨?_, ?_⟩
+  · intro g rest hd
+    rw [hp]
+    exact specRun_maximal L t (clusters cs) pos herr g rest hd
+  · intro hd
+    have h2 := (specRun_pos L t (clusters cs) pos).2
+    have : specTaken L (clusters cs) t pos = (clusters cs).length := by
+      have h3 : (clusters cs).length ≤ specTaken L (clusters cs) t pos := List.drop_eq_nil_iff.1 hd
+      omega
+    exact specRun_all_eof L t (clusters cs) pos herr this
+
+/-- **Error value.**  The call returns `-1` exactly when every scanned grapheme fits (the scan is not stopped
+    by a limit before the end of the decodable characters) and what follows them is — declaratively, `ErrAt` —
+    a C0 control or DEL, an invalid lead byte, a sequence truncated by the length or the terminator, or a
+    sequence encoding a C0/C1 control or DEL. -/
+theorem count_error_iff (mem : Mem) (fuel : Nat) (len : Option Nat) (pos : Pos) (L : Option Limit)
+    (cs : List Ch) (t : Tail) (hs : Scans mem fuel len pos cs t) (r : Int) (p : Pos) (hi : Nat)
+    (h : ncountmore mem fuel len pos L = .ret r p hi) :
+    r = -1 ↔ (AllFit L pos (graphemes cs) ∧
+      ErrAt mem (pos.bytes + bytesOf cs) (lenDec (lenSub len pos.bytes) (bytesOf cs))) := by
+  obtain ⟨hr, _⟩ := ret_inj hs h
+  rw [hr, ret_neg_iff, specRun_err_iff, ← stepAt_err_iff]
+  obtain ⟨he1, he2⟩ := scan_end mem fuel _ _ cs t hs
+  constructor
+  · rintro ⟨ht, hf⟩; exact ⟨hf, he2 ht⟩
+  · rintro ⟨hf, hi', hst⟩
+    refine ⟨?_, hf⟩
+    cases t with
+    | err => rfl
+    | eof =>
+      obtain ⟨hi'', hst'⟩ := he1 rfl
+      rw [hst'] at hst; cases hst
+
+example : count (memOfBytes [0x61, 0x1b]) 5 none = .ret (-1) ⟨0, 0, 0, 0⟩ 2 ∧
+    count (memOfBytes [0x61, 0x1b]) 5 (some ⟨some 1, -1, -1, -1⟩) = .ret (-1) ⟨0, 0, 0, 0⟩ 2 ∧
+    count (memOfBytes [0x61, 0x62, 0x1b]) 5 (some ⟨some 1, -1, -1, -1⟩) = .ret 1 ⟨1, 1, 1, 1⟩ 2 ∧
+    ncount (memOfBytes [0x61, 0xe5, 0xbd]) 5 (some 3) none = .ret (-1) ⟨0, 0, 0, 0⟩ 2 := by decide +kernel
+
+/-- **Reads are bounded (length-bounded entry points).**  With `pos->bytes ≤ len`, every index read is `< len`. -/
+theorem reads_bounded_len (mem : Mem) (fuel l : Nat) (pos : Pos) (L : Option Limit) (hpre : pos.bytes ≤ l)
+    (r : Int) (p : Pos) (hi : Nat) (h : ncountmore mem fuel (some l) pos L = .ret r p hi) : hi ≤ l := by
+  unfold ncountmore at h
+  have hls : lenSub (some l) pos.bytes = some (l - pos.bytes) := by simp [lenSub, hpre]
+  rw [hls] at h
+  exact loop_bound mem L pos.bytes l fuel pos.bytes _ pos pos 0 r p hi (by simp [ReadBound]; omega) (by omega) h
+
+/-- **Reads are bounded (NUL-terminated entry points).**  If `nul` is the first NUL at or after `pos->bytes`,
+    every index read is `≤ nul`. -/
+theorem reads_bounded_nul (mem : Mem) (fuel : Nat) (pos : Pos) (L : Option Limit) (nul : Nat)
+    (hn : FirstNul mem pos.bytes nul)
+    (r : Int) (p : Pos) (hi : Nat) (h : ncountmore mem fuel none pos L = .ret r p hi) : hi ≤ nul + 1 := by
+  unfold ncountmore at h
+  exact loop_bound mem L pos.bytes (nul + 1) fuel pos.bytes _ pos pos 0 r p hi
+    (show ReadBound mem pos.bytes none (nul + 1) from ⟨nul, hn, Nat.le_refl _⟩) (by omega) h
+
+example : FirstNul (memOfBytes [0x61, 0xe5, 0xbd]) 0 3 ∧
+    count (memOfBytes [0x61, 0xe5, 0xbd]) 5 none = .ret (-1) ⟨0, 0, 0, 0⟩ 4 := by
+  refine ⟨⟨by omega, by decide +kernel, ?_⟩, by decide +kernel⟩
+  intro i _ h3
+  have : i = 0 ∨ i = 1 ∨ i = 2 := by omega
+  rcases this with rfl | rfl | rfl <;> decide +kernel
+
+/-- **Resumable.**  For limits `L₁ ≤ L₂`: counting with `L₁` and then continuing from the returned position
+    with `L₂` ends at the same position, with the same error outcome, as counting once with `L₂`.  (The
+    length-bounded form needs the documented precondition `pos->bytes ≤ len`.) -/
+theorem count_resumable (mem : Mem) (fuel : Nat) (len : Option Nat) (pos : Pos) (L1 L2 : Option Limit)
+    (cs : List Ch) (t : Tail) (hs : Scans mem fuel len pos cs t) (hle : LimitLe L1 L2)
+    (hpre : ∀ l, len = some l → pos.bytes ≤ l)
+    (r1 : Int) (p1 : Pos) (h1 : Nat) (hc1 : ncountmore mem fuel len pos L1 = .ret r1 p1 h1) :
+    ∃ r2 r3 p h2 h3,
+      ncountmore mem fuel len p1 L2 = .ret r2 p h2 ∧
+      ncountmore mem fuel len pos L2 = .ret r3 p h3 ∧
+      (r2 = -1 ↔ r3 = -1) ∧ (r3 ≠ -1 → r3 = (p1.bytes - pos.bytes : Int) + r2) := by
+  obtain ⟨_, hp1⟩ := ret_inj hs hc1
+  obtain ⟨h2, he2⟩ := ncountmore_resume mem fuel len pos L1 L2 cs t hle hpre hs
+  obtain ⟨h3, he3⟩ := ncountmore_eq_spec mem fuel len pos L2 cs t hs
+  have g1 : pos.bytes ≤ p1.bytes := by rw [hp1]; exact specRun_bytes_ge L1 t _ pos
+  have g2 : p1.bytes ≤ (specRun L2 (clusters cs) t pos).pos.bytes := by
+    have := specRun_resume L1 L2 hle t (clusters cs) pos
+    rw [← this, hp1]; exact specRun_bytes_ge L2 t _ _
+  rw [← hp1] at he2
+  refine ⟨_, _, _, h2, h3, he2, he3, ?_, ?_⟩
+  · unfold Res.ret
+    by_cases he : (specRun L2 (clusters cs) t pos).err = true
+    · simp [he]
+    · have he' : (specRun L2 (clusters cs) t pos).err = false := by simpa using he
+      simp only [he', Bool.false_eq_true, if_false]; omega
+  · unfold Res.ret
+    by_cases he : (specRun L2 (clusters cs) t pos).err = true
+    · simp [he]
+    · have he' : (specRun L2 (clusters cs) t pos).err = false := by simpa using he
+      simp only [he', Bool.false_eq_true, if_false]; omega
+
+example : LimitLe (some ⟨none, -1, -1, 3⟩) (some ⟨none, -1, -1, 4⟩) ∧
+    count (memOfBytes [0x63, 0x61, 0x66, 0x65, 0xcc, 0x81]) 9 (some ⟨none, -1, -1, 3⟩) = .ret 3 ⟨3, 3, 3, 3⟩ 4 ∧
+    countmore (memOfBytes [0x63, 0x61, 0x66, 0x65, 0xcc, 0x81]) 9 ⟨3, 3, 3, 3⟩ (some ⟨none, -1, -1, 4⟩) = .ret 3 ⟨6, 5, 4, 4⟩ 7 := by
+  refine ⟨?_, by decide +kernel, by decide +kernel⟩
+  intro p h
+  simp [Within, leOpt] at h ⊢
+  omega
+
+/-- Enough fuel always exists for a length-bounded input … -/
+theorem scan_terminates_len (mem : Mem) (l : Nat) (str : Nat) : ∃ cs t, scan mem (l + 1) str (some l) = some (cs, t) := by
+  induction l using Nat.strongRecOn generalizing str with
+  | _ l ih =>
+    rw [scan]
+    have hb := stepAt_bound mem str (some l) (str + l) (by simp [ReadBound])
+    cases hst : stepAt mem str (some l) with
+    | stop hi => exact ⟨_, _, rfl⟩
+    | err hi => exact ⟨_, _, rfl⟩
+    | ch n cp w hi =>
+      rw [hst] at hb
+      have hn := stepAt_ch_len mem str l n cp hi w hst
+      obtain ⟨cs, t, h⟩ := ih (l - n) (by omega) (str + n)
+      have := scan_mono_le mem (l - n + 1) l (str + n) (some (l - n)) (cs, t) (by omega) h
+      simp only [lenDec, Option.map]
+      rw [this]; exact ⟨_, _, rfl⟩
+
+/-- … and for a NUL-terminated one. -/
+theorem scan_terminates_nul (mem : Mem) (nul : Nat) :
+    ∀ (k str : Nat), FirstNul mem str nul → nul - str ≤ k → ∃ cs t, scan mem (k + 1) str none = some (cs, t) := by
+  intro k
+  induction k with
+  | zero =>
+    intro str hn hk
+    have : str = nul := by have := hn.1; omega
+    subst this
+    refine ⟨[], .eof, ?_⟩
+    rw [scan]; unfold stepAt; simp [hn.2.1]
+  | succ k ih =>
+    intro str hn hk
+    rw [scan]
+    have hb := stepAt_bound mem str none (nul + 1) (show ReadBound mem str none (nul + 1) from ⟨nul, hn, Nat.le_refl _⟩)
+    cases hst : stepAt mem str none with
+    | stop hi => exact ⟨_, _, rfl⟩
+    | err hi => exact ⟨_, _, rfl⟩
+    | ch n cp w hi =>
+      rw [hst] at hb
+      obtain ⟨_, ⟨nul', hn', hle⟩, hpos⟩ := hb
+      have hnul : nul' = nul := by
+        -- both are the first NUL at or after `str + n`
+        rcases Nat.lt_trichotomy nul' nul with hlt | heq | hgt
+        · exact absurd hn'.2.1 (hn.2.2 nul' (by have := hn'.1; omega) hlt)
+        · exact heq
+        · omega
+      subst hnul
+      obtain ⟨cs, t, h⟩ := ih (str + n) hn' (by have := hn'.1; omega)
+      simp only [lenDec, Option.map]
+      rw [h]; exact ⟨_, _, rfl⟩
+
+/-! ### encode, then count -/
+
+/-- **Round trip.**  For every code point below `0x200000` that is not a C0/C1 control or DEL:
+    `tickit_utf8_put` writes `seqlen cp` bytes; decoding them gives `(seqlen cp, cp)` back; counting them gives
+    `bytes = seqlen cp`, `codepoints = 1`, `graphemes = [wcwidth cp > 0]`, `columns = wcwidth cp`, reading
+    exactly the bytes and the terminator. -/
+theorem put_count_roundtrip (cp : Nat) (h0 : 0x20 ≤ cp) (hc : ¬ (0x7f ≤ cp ∧ cp < 0xa0)) (h1 : cp < 0x200000)
+    (buflen : Nat) (hb : seqlen cp ≤ buflen) (fuel : Nat) :
+    put false buflen cp = (((seqlen cp : Nat) : Int), putBytes cp) ∧
+    (putBytes cp).length = seqlen cp ∧
+    nextUtf8 (memOfBytes (putBytes cp)) 0 none = .ok (seqlen cp) cp (seqlen cp) ∧
+    count (memOfBytes (putBytes cp)) (fuel + 2) none =
+      .ret (seqlen cp) ⟨seqlen cp, 1, if wcwidth cp > 0 then 1 else 0, wcwidth cp⟩ (seqlen cp + 1) ∧
+    0 ≤ wcwidth cp := by
+  obtain ⟨hd, hl, _, _⟩ := nextUtf8_putBytes cp (by omega) h1
+  refine ⟨?_, hl, hd, count_putBytes cp h0 hc h1 fuel, ?_⟩
+  · unfold put; simp; omega
+  · rcases wcwidth_cases cp with h | h
+    · exact absurd h (wcwidth_ne_neg_one cp (by omega) (by omega))
+    · exact h
+
+example : put false 4 0x1f3e0 = (4, [0xf0, 0x9f, 0x8f, 0xa0]) ∧ wcwidth 0x1f3e0 = 2 ∧
+    count (memOfBytes (putBytes 0x1f3e0)) 2 none = .ret 4 ⟨4, 1, 1, 2⟩ 5 := by decide +kernel
+
+/-- A buffer that is too short is left alone and `-1` is returned; `str == NULL` only measures. -/
+theorem put_short (cp buflen : Nat) (h : buflen < seqlen cp) : put false buflen cp = (-1, []) := by
+  unfold put; simp [h]
+
+/-! ### the known finding `lax_continuation`
+
+The property lists "a truncated sequence" among the errors.  `next_utf8` notices a sequence cut short by the
+length or by the terminator, but accepts *any* non-NUL byte where a continuation byte (`0x80…0xBF`) is
+required.  `scanStrict` is the scan under the reading in which such a sequence is truncated. -/
+
+/-- The full statement of the error clause under the strict reading. -/
+def C07_error_full : Prop :=
+  ∀ (mem : Mem) (fuel : Nat) (len : Option Nat) (pos : Pos) (L : Option Limit) (cs : List Ch) (t : Tail)
+    (r : Int) (p : Pos) (hi : Nat),
+    scanStrict mem fuel pos.bytes (lenSub len pos.bytes) = some (cs, t) →
+    ncountmore mem fuel len pos L = .ret r p hi →
+    (r = -1 ↔ (t = .err ∧ AllFit L pos (graphemes cs)))
+
+/-- `C3 41 00`: the strict reading sees a truncated sequence at offset 0; the code returns 2 (it counts
+    U+00C1, swallowing the `A`). -/
+theorem count_error_counterexample : ¬ C07_error_full := by
+  intro h
+  have := h (memOfBytes [0xc3, 0x41]) 10 none Pos.zero none [] .err 2 ⟨2, 1, 1, 1⟩ 3
+    (by decide +kernel) (by decide +kernel)
+  have h2 := this.2 ⟨rfl, trivial⟩
+  exact absurd h2 (by decide)
+
+/-- The error clause under the strict reading holds whenever no offset is the trigger
+    (`badCont`: a non-NUL, non-continuation byte inside a sequence). -/
+theorem count_error_iff_partial (mem : Mem) (hno : ∀ p len, badCont mem p len = false)
+    (fuel : Nat) (len : Option Nat) (pos : Pos) (L : Option Limit) (cs : List Ch) (t : Tail)
+    (r : Int) (p : Pos) (hi : Nat)
+    (hs : scanStrict mem fuel pos.bytes (lenSub len pos.bytes) = some (cs, t))
+    (h : ncountmore mem fuel len pos L = .ret r p hi) :
+    r = -1 ↔ (t = .err ∧ AllFit L pos (graphemes cs)) := by
+  have hsame : ∀ (f s : Nat) (l : Option Nat), scanStrict mem f s l = scan mem f s l := by
+    intro f
+    induction f with
+    | zero => intro s l; rfl
+    | succ f ih =>
+      intro s l
+      rw [scanStrict, scan]
+      have : stepStrict mem s l = stepAt mem s l := by unfold stepStrict; simp [hno s l]
+      rw [this]
+      split <;> simp [ih]
+  rw [hsame] at hs
+  obtain ⟨hr, _⟩ := ret_inj hs h
+  rw [hr, ret_neg_iff, specRun_err_iff]
+
+example : (∀ p len, badCont (memOfBytes [0x61, 0xc3, 0xa9]) p len = false) := by
+  intro p len
+  unfold badCont
+  by_cases hp : p = 1
+  · subst hp
+    have h1 : (memOfBytes [0x61, 0xc3, 0xa9] 1).toNat = 0xc3 := by decide +kernel
+    have h2 : (memOfBytes [0x61, 0xc3, 0xa9] (1 + 1)).toNat = 0xa9 := by decide +kernel
+    rw [h1]
+    have : leadLen 0xc3 = 2 := by decide
+    rw [this]
+    simp [List.range, List.range.loop, h2, isContByte]
+  · have : leadLen (memOfBytes [0x61, 0xc3, 0xa9] p).toNat = 0 := by
+      have : p = 0 ∨ p = 2 ∨ p ≥ 3 := by omega
+      rcases this with rfl | rfl | h
+      · decide +kernel
+      · decide +kernel
+      · have : (memOfBytes [0x61, 0xc3, 0xa9] p).toNat = 0 := by
+          rw [memOfBytes_toNat _ _ (by intro x hx; simp at hx; omega)]
+          simp [List.getD, List.getElem?_eq_none (show [0x61, 0xc3, 0xa9].length ≤ p by simpa using h)]
+        rw [this]; decide
+    simp [this]
+
 end Tickit.Props.C07
